@@ -852,6 +852,17 @@ def expected_for(name, today, start, deadline, holidays, recent=None):
     raise KeyError(name)
 
 
+def _today_occurrences(cells, k, depth=0):
+    """How many times TODAY() is called when cell k is evaluated (through references to other formula cells too)."""
+    f = cells.get(k)
+    if not (isinstance(f, str) and f.startswith('=')) or depth > 3:
+        return 0
+    n = f.count('TODAY()')
+    for m in re.finditer(r'(?<![A-Z:$])([A-Z])(\d+)(?![:\d(])', re.sub(r'"[^"]*"', '""', f)):
+        n += _today_occurrences(cells, m.group(1) + m.group(2), depth + 1)
+    return n
+
+
 def _exec_calendar(plan):
     import simclock
     from excel2pycl import Parser, Executor, Cell
@@ -981,10 +992,18 @@ def _exec_calendar(plan):
                     if ld2 != ld:
                         probe('midnight_crossed_inside_one_evaluation')
                         feats.add('midnight-inside')
-                        if nreads != 1 or ld2 != libc_local_date(after_ns):
-                            continue            # several reads may legitimately see two dates
-                        e2 = expected_for(names[k], ld2, start, deadline, holidays, recent)
-                        exp = None if (exp is None or e2 is None) else exp + e2
+                        if ld2 != libc_local_date(after_ns):
+                            continue
+                        if nreads != 1 and _today_occurrences(cellsd, k) != 1:
+                            continue            # several TODAY() calls in one formula may legitimately see two dates
+                        # ONE TODAY() - however often the library reads the clock for it - must be a date the clock
+                        # actually showed during the evaluation: the date of the first read, of the last, or one between
+                        probe('single_TODAY_evaluated_across_midnight')
+                        d_ = ld
+                        while d_ < ld2 and exp is not None:
+                            d_ = d_ + datetime.timedelta(days=1)
+                            e2 = expected_for(names[k], d_, start, deadline, holidays, recent)
+                            exp = None if e2 is None else exp + e2
                     if exp is None:
                         probe('datedif_start_after_end_not_compared')
                         continue
